@@ -367,7 +367,7 @@ class FileResponse(StreamResponse):
                         min(end if end is not None else file_size, file_size) - start
                     )
 
-                if start >= file_size:
+                if start >= file_size or count == 0:
                     # HTTP 416 should be returned in this case.
                     #
                     # According to https://tools.ietf.org/html/rfc7233:
